@@ -105,7 +105,7 @@ def plan(prop, tier):
                     floor_evaluations=3000, assumptions=SIMK_ASSUMPTIONS, also=[])
     if prop == "C15":
         rule = ("a ReadBuf filled by a simulated pool read (buffer sizes 1..512, fill 0..size, pools of 1-8 buffers) receives 1-12 random edit calls {truncate, clear, remove with all bound forms incl. usize::MAX, set_len, extend_from_slice, spare_capacity_mut+set_len} and optionally a re-read into its spare capacity; "
-                "oracle = Vec<u8> with fixed capacity (panics compared with Vec::drain's), canary bytes in every other slot, the (addr,bid) written to the buffer ring at release; both debug and release profiles; distinct = distinct edit sequences")
+                "oracle = Vec<u8> with fixed capacity (panics compared with Vec::drain's), canary bytes in every other slot (writes outside the slot), a second pass of the same edits with different bytes in the other slots and the whole slot compared after every edit (reads outside the slot show as a difference), the (addr,bid) written to the buffer ring at release; both debug and release profiles; distinct = distinct edit sequences")
         if tier == "quick":
             jobs = [gen_job("c15", "native-debug", 4000, 8), gen_job("c15", "native-release", 4000, 8)]
         else:
@@ -114,8 +114,8 @@ def plan(prop, tier):
                     floor_evaluations=5000, assumptions=SIMK_ASSUMPTIONS, also=["C08"])
     if prop == "C07":
         return explorer_plan(
-            "c07", tier, 2500, 40000, GEN_RULE + "; restricted to descriptor-creating operations (open/socket/accept/multishot accept/pipe/to_direct/to_file, regular and direct), AsyncFd::close, standard-stream handles, 1-4 entry queues so that the synchronous close fallback runs; C07 oracle: descriptor ledger fed by the close(2) interposer, IORING_OP_CLOSE, files-update and the creating completions; direct indices live in 3000.. so that a descriptor closed as the wrong kind is unmistakable",
-            ["stdio-handle-dropped", "kind:SocketDirect", "kind:PipeDirect", "kind:Close", "kind:MultishotAccept", "drop:Single:in-flight", "drop:Single:completion-posted-not-consumed", "drop:Single:done-not-collected", "simk_closes"],
+            "c07", tier, 2500, 40000, GEN_RULE + "; restricted to descriptor-creating operations (open/socket/accept/multishot accept on regular and on direct-descriptor listeners/pipe/to_direct/to_file, regular and direct), AsyncFd::close, standard-stream handles, 1-4 entry queues so that the synchronous close fallback runs; C07 oracle: descriptor ledger fed by the close(2) interposer, IORING_OP_CLOSE, files-update and the creating completions; direct indices live in 3000.. so that a descriptor closed as the wrong kind is unmistakable",
+            ["stdio-handle-dropped", "kind:SocketDirect", "kind:PipeDirect", "kind:Close", "kind:MultishotAccept", "kind:AcceptDirect", "kind:MultishotAcceptDirect", "drop:Single:in-flight", "drop:Single:completion-posted-not-consumed", "drop:Single:done-not-collected", "simk_closes"],
         )
     if prop == "C12":
         import math
@@ -140,7 +140,7 @@ def plan(prop, tier):
         return dict(jobs=jobs, level="fault_enumeration", rule=rule, floor_cells=["refuse:none", "refuse:setup", "refuse:feature-2", "refuse:feature-4", "refuse:feature-8", "refuse:feature-128", "refuse:mmap-1", "refuse:mmap-2", "refuse:mmap-3", "refuse:register", "result:ok", "result:err", "disabled-then-enabled", "granted-sq:4"],
                     floor_evaluations=60000, exhaustive=True, assumptions=SIMK_ASSUMPTIONS + ["the madvise(MADV_DONTFORK) failure branch of the real mmap wrapper is bypassed by the hook and not covered"], also=[])
     if prop == "C08":
-        rule = ("(a) random single-threaded histories with single-shot and multishot pool reads/receives, kept/dropped ReadBufs, operations abandoned in flight (pools of 1-8 buffers): pool ledger in the simulated kernel (every buffer-ring entry a10 publishes is checked: id handed out, own address/length, tail-head <= size), checksums of held ReadBufs, conservation at the end; "
+        rule = ("(a) random single-threaded histories with single-shot and multishot pool reads/receives, kept/edited (remove/truncate/clear/extend before release)/dropped ReadBufs, operations abandoned in flight (pools of 1-8 buffers): pool ledger in the simulated kernel (every buffer-ring entry a10 publishes is checked: id handed out, own address/length, tail-head <= size), checksums of held ReadBufs, conservation at the end; "
                 "(b) marathon of 70000 read/release cycles so the 16-bit ring tail wraps; (c) baton-scheduler schedules: 2-4 threads releasing all buffers of a pool concurrently while a simulated kernel thread audits the ring at every scheduling point (incl. before the tail store); distinct = event-trace / switch-sequence hash")
         if tier == "quick":
             jobs = [gen_job("c08", "native-debug", 2500, 8), gen_job("c08wrap", "native-debug", 1, 2, timeout=600), gen_job("c08mt", "native-debug", 400, 8, timeout=600)]
@@ -177,13 +177,13 @@ def plan(prop, tier):
         return dict(jobs=jobs, level="exploration", rule=rule, floor_cells=["record:ignored", "record:overflow", "record:name-255", "record:no-name", "record:unknown-wd", "end:0", "end:1", "end:2", "keep:0", "keep:3", "events_checked"],
                     floor_evaluations=5000, assumptions=SIMK_ASSUMPTIONS + ["inotify_init1/inotify_add_watch are interposed by the harness (watch descriptors 1,2,3.. per instance like the kernel); record layout follows inotify(7): header 16 bytes, name padded with NULs to a multiple of 16"], also=[])
     if prop == "C13":
-        rule = ("(a) real kernel differential (E6): the a10 operation on one fixture, the libc/std call on an identical twin, results and resulting state compared: read/write/read_vectored/write_vectored at offsets {cursor,0,random,2^32-1,2^32+1,2^40} with lengths incl. 0, truncate, allocate (+KEEP_SIZE), sync, advise, metadata vs fstat, open option matrix (exists x write x create x create_new x truncate x append x mode x kind) vs open(2), create_dir/remove_file/remove_dir/rename incl. failing cases vs libc, send/send_vectored/recv(PEEK)/socket options/shutdown on stream pairs, pipe, splice - each file/socket operation on a regular and on a direct descriptor; "
-                "(b) ABI sweep on the simulated kernel: 22 operation kinds with random arguments (waitid ids/options, madvise, socket, listen, shutdown, fsync, fallocate, fadvise, ftruncate, statx, unlink, mkdir, rename, open flags/mode/kind, splice roles/offsets/flags, connect/bind addresses, send_to, socket options, accept, read/write offsets), every submission field decoded with the independent ABI table and compared with the arguments, regular and direct descriptors; distinct = distinct (operation, arguments)")
+        rule = ("(a) real kernel differential (E6): the a10 operation on one fixture, the libc/std call on an identical twin, results and resulting state compared: read/write/read_vectored/write_vectored at offsets {cursor,0,random,2^32-1,2^32+1,2^40} with lengths incl. 0, truncate, allocate (+KEEP_SIZE), sync, advise, metadata vs fstat, open option matrix (exists x write x create x create_new x truncate x append x mode x kind) vs open(2), create_dir/remove_file/remove_dir/rename incl. failing cases vs libc, send/send_vectored/recv(PEEK)/socket options/local_addr/peer_addr/shutdown on stream pairs, pipe, splice - each file/socket operation on a regular and on a direct descriptor; "
+                "(b) ABI sweep on the simulated kernel: 23 operation kinds with random arguments (waitid ids/options, madvise, socket, listen, shutdown, fsync, fallocate, fadvise, ftruncate, statx, unlink, mkdir, rename, open flags/mode/kind, splice roles/offsets/flags, connect/bind addresses, send_to, socket options, accept, multishot accept, read/write offsets), every submission field decoded with the independent ABI table and compared with the arguments, regular and direct descriptors; distinct = distinct (operation, arguments)")
         if tier == "quick":
             jobs = [gen_job("c13", "native-debug", 500, 8, timeout=600), gen_job("c13abi", "native-debug", 2500, 8)]
         else:
             jobs = [gen_job("c13", "native-debug", 8000, 16, timeout=3000), gen_job("c13", "native-release", 8000, 16, timeout=3000), gen_job("c13abi", "native-debug", 60000, 16, timeout=1800), gen_job("c13abi", "native-release", 60000, 16, timeout=1800)]
-        return dict(jobs=jobs, level="exploration", rule=rule, floor_cells=["op:write:regular", "op:write:direct", "op:read:direct", "op:read_vectored:regular", "op:write_vectored:direct", "op:open", "op:rename", "op:remove_dir", "op:send:direct", "op:recv:regular", "op:sockopt:direct", "op:shutdown:regular", "op:pipe", ["op:splice:regular", "op:splice:direct"], "op:allocate:regular", "op:truncate:direct", "abi:waitid", "abi:madvise", "abi:splice", "abi:open", "abi:accept", "abi-kind:direct"],
+        return dict(jobs=jobs, level="exploration", rule=rule, floor_cells=["op:write:regular", "op:write:direct", "op:read:direct", "op:read_vectored:regular", "op:write_vectored:direct", "op:open", "op:rename", "op:remove_dir", "op:send:direct", "op:recv:regular", "op:sockopt:direct", "op:shutdown:regular", "op:pipe", ["op:splice:regular", "op:splice:direct"], "op:allocate:regular", "op:truncate:direct", "abi:waitid", "abi:madvise", "abi:splice", "abi:open", "abi:accept", "abi:multishot_accept", "abi-kind:direct", "op:socket-name:regular", ["op:socket-name:direct", "op:socket-name-unsupported:direct"]],
                     floor_evaluations=5000, assumptions=["the real io_uring of this sandbox (kernel 6.18) and libc/std are the oracle for part (a); arguments are sampled, not enumerated", "part (b) trusts the harness' independent ABI table (written from the uapi header)", "operations needing privileges or devices are compared for equal failure"], also=[])
     return None
 
